@@ -74,4 +74,4 @@ def unit():
     enc = K.std_block_mode_mod('cbc', 'enc', 'cbc/src/encrypt.rs', 'cbc_enc_step', uses='use super::cbc_lib::xor;',
                                backend_fns=enc_backend_fns(), init_fns=K.init_plain(('C09', 'C02')),
                                state_fns=K.state_plain(), props_rec=P_REC)
-    return Unit('cbc', prelude=K.PRELUDE_BLOCK, spec=['steps.rs'], mods=[lib, dec, enc])
+    return Unit('cbc', prelude=K.PRELUDE_BLOCK, spec=['steps.rs'], mods=K.DEPS() + [lib, dec, enc])
